@@ -386,6 +386,12 @@ func genC20(tier string) []Scenario {
 		}
 		out = append(out, waitScn{kind: kFuncR, w: w, n: 3, cancelJ: -1, bound: 0, fb: true}.scenario())
 	}
+	// long retry sequences (9 and 10 attempts): every wait of every attempt is there
+	out = append(out, waitScn{kind: -1, w: time.Millisecond, n: 10, items: 1, c: 0, cancelJ: -1, bound: 0}.scenario())
+	out = append(out, waitScn{kind: -1, w: time.Millisecond, n: 9, items: 2, c: 2, cancelJ: -1, bound: 0}.scenario())
+	out = append(out, waitScn{kind: kFuncR, w: time.Millisecond, n: 10, cancelJ: -1, bound: 0}.scenario())
+	out = append(out, waitScn{kind: kBase, w: time.Hour, n: 9, cancelJ: 7, d: time.Minute, bound: 0}.scenario())
+	out = append(out, waitScn{kind: -1, w: time.Hour, n: 9, items: 1, c: 0, cancelJ: 7, d: time.Minute, bound: 0}.scenario())
 	// the smallest wait there is: one nanosecond is a wait, not "no wait"
 	out = append(out, waitScn{kind: kFuncR, w: 1, n: 3, cancelJ: -1, bound: 0}.scenario())
 	out = append(out, waitScn{kind: kBase, w: 1, n: 3, cancelJ: -1, bound: 0}.scenario())
